@@ -36,6 +36,9 @@ P = {
  "C15": ("Theorems C15_prefix / C15_delivered_are_solutions (any limit oracle: delivered assignments are a prefix of the unlimited enumeration, hence genuine solutions), C15_solve_result / C15_minimize_result (Ok only for the unlimited answer, NoSolution only if nothing is yielded, otherwise Timeout/MemoryLimit — for arbitrary in-loop and post-loop test outcomes), C15_never_no_solution_when_satisfiable, C15_online_engine_is_fold. Tie: hook H6 forces the limit at the k-th engine check; every k is swept for small models through the real Model::solve/minimize/maximize/enumerate and compared with the model (event trace incl. stack pushes/pops, check counting, memory-estimate formula); deep models trip the real 1-2 MB memory estimate.",
          "Lean 4 proof (limited engine as a fold over the unlimited event trace; equivalence with the online engine by induction) with differential correspondence",
          "Wall-clock time is an abstract oracle; panics are observed by the harness (catch_unwind), not proved absent."),
+ "C09": ("Certificate theory at exact rationals for all dimensions: C09_weak_duality, C09_legal_optimal_is_optimal (+ tolerance version), C09_standard_form_equiv (lower-bound shift and upper-bound slack rows), C09_optimal, C09_phase1_infeasible, C09_infeasible_vacuous (no return site carries LpStatus::Infeasible), dual/warm-start form: partial theorem + counterexamples. Tie: for every LP the harness prints data (bit patterns), status, x, objective and the returned basis; the Lean driver recomputes x_B and y from the basis by exact elimination and evaluates the verified checker; an independent exact vertex-enumeration oracle decides feasibility/optimality of the implementation's answer.",
+         "Lean 4 proof (LP duality / certificate checking over Rat) with per-run certificate validation and exact-arithmetic oracle",
+         "The pivoting rules and LU factorisation are not modelled; legality of each terminal state is validated per run, not proved for all runs."),
  "C11": ("Lean 4 theorems about a model of SparseSet: well-formedness invariant and refinement to a plain mathematical set for every universe and every history of any length (C11_history_partial, C11_observers), with kernel-checked counterexamples for the two history shapes on which the pinned code violates the property (known findings). Tie: exact correspondence of full observable state (storage order, complement order, cached bounds) on random and exhaustive histories, plus a BTreeSet oracle.",
          "Lean 4 proof (invariant + refinement by induction over histories) with differential correspondence",
          "The guard `ok` of the partial theorem excludes restores after union_with and non-LIFO restores (known findings)."),
